@@ -6,6 +6,7 @@
 mod proto;
 mod shim;
 mod trace;
+mod ssack;
 
 use std::io::Write;
 use std::panic::{catch_unwind, AssertUnwindSafe};
@@ -29,6 +30,7 @@ fn main() {
         "trace" => trace::main(&args[2..]),
         "lock" => trace::lock_main(&args[2..]),
         "lockchild" => trace::lock_child(&args[2..]),
+        "ssack" => ssack::main(&args[2..]),
         _ => {
             eprintln!("unknown mode");
             std::process::exit(2);
